@@ -1,7 +1,138 @@
 package main
 
-// Stand-alone lemma queries per property (pure SMT over the spec functions).
+// Stand-alone obligations per property that are not attached to one Go function:
+//   - structural obligations on the SQL text of the search statements (C14): the statements are string
+//     templates (fmt.Sprintf with a tag-filter hole), so they are not executed symbolically; what the paging
+//     argument needs from them is their shape, decided on the parsed statement of the current source;
+//   - the paging lemma (C14): pure SMT over an abstract sorted store.
+
+import (
+	"fmt"
+	"strings"
+)
+
+func structural(name, where string, ok bool, detail string) *lemmaQuery {
+	st := "unsat"
+	if !ok {
+		st = "sat"
+	}
+	return &lemmaQuery{name: name, where: where, res: &SolveResult{Status: st, Solver: "sql-structure", Raw: detail, Model: detail}}
+}
+
+func isCol(e SQLExpr, name string) bool {
+	c, ok := e.(SQLCol)
+	return ok && c.Name == name
+}
+
+func isParam(e SQLExpr) bool {
+	_, ok := e.(SQLParam)
+	return ok
+}
+
+// searchShape checks one search statement: rows strictly below the cursor, newest first, page size bound.
+func searchShape(prog *Program, pkgPath, constName string, wantState bool) []*lemmaQuery {
+	where := strings.TrimPrefix(pkgPath, repoModule+"/") + ":" + constName
+	text, ok := prog.constString(pkgPath, constName)
+	if !ok {
+		return []*lemmaQuery{structural("search statement "+constName+" exists", where, false, "constant not found")}
+	}
+	stmts, err := ParseSQL(text)
+	if err != nil || len(stmts) != 1 || stmts[0].Select == nil {
+		return []*lemmaQuery{structural("search statement "+constName+" is a SELECT of the verified SQL subset", where, false, fmt.Sprint(err))}
+	}
+	sel := stmts[0].Select
+	var out []*lemmaQuery
+	cs := conjuncts(sel.Where)
+	// (p IS NULL OR sort_id < p): strictly older than the cursor
+	cursorOK, likeOK, stateOK := false, false, false
+	for _, c := range cs {
+		b, ok := c.(SQLBin)
+		if !ok {
+			continue
+		}
+		switch strings.ToLower(b.Op) {
+		case "or":
+			if r, ok := b.R.(SQLBin); ok && r.Op == "<" && isCol(r.L, "sort_id") && isParam(r.R) {
+				cursorOK = true
+			}
+		case "like":
+			if isCol(b.L, "id") && isParam(b.R) {
+				likeOK = true
+			}
+		case "!=":
+			if l, ok := b.L.(SQLBin); ok && l.Op == "&" && isCol(l.L, "state") && isParam(l.R) {
+				if z, ok := b.R.(SQLInt); ok && z.V == 0 {
+					stateOK = true
+				}
+			}
+		}
+	}
+	out = append(out, structural(constName+": a page holds only rows strictly older than the cursor (… OR sort_id < ?)", where, cursorOK, text))
+	out = append(out, structural(constName+": rows are filtered by the id pattern (id LIKE ?)", where, likeOK, text))
+	if wantState {
+		out = append(out, structural(constName+": rows are filtered by the state mask (state & ? != 0)", where, stateOK, text))
+	}
+	orderOK := len(sel.OrderBy) == 1 && sel.OrderBy[0].Col.Name == "sort_id" && sel.OrderBy[0].Desc
+	out = append(out, structural(constName+": newest first (ORDER BY sort_id DESC, nothing else)", where, orderOK, text))
+	out = append(out, structural(constName+": the page size is a bound parameter (LIMIT ?)", where, sel.Limit != nil && isParam(sel.Limit), text))
+	sortSel := false
+	for _, pr := range sel.Proj {
+		if isCol(pr, "sort_id") {
+			sortSel = true
+		}
+	}
+	out = append(out, structural(constName+": the sort id of every row is returned (it becomes the cursor)", where, sortSel, text))
+	return out
+}
 
 func extraObligations(prog *Program, prop, tier string) []*lemmaQuery {
-	return nil
+	if prop != "C14" {
+		return nil
+	}
+	var out []*lemmaQuery
+	for _, be := range []string{"sqlite", "postgres"} {
+		pkg := repoModule + "/internal/app/subsystems/aio/store/" + be
+		out = append(out, searchShape(prog, pkg, "PROMISE_SEARCH_STATEMENT", true)...)
+		out = append(out, searchShape(prog, pkg, "SCHEDULE_SEARCH_STATEMENT", false)...)
+	}
+	out = append(out, pagingLemmas(prog)...)
+	return out
+}
+
+// pagingLemmas: the step from the per-page contracts to "every matching row exactly once, newest first".
+// Abstract store: rows are identified by their sort id (unique, AUTOINCREMENT/SERIAL); matches(s) says row s
+// satisfies the filter throughout the traversal. A page for cursor c and limit n is described by the set
+// inpage(s) with: (P1) inpage(s) => match(s) and s < c; (P2) every matching s < c that is not in the page is
+// older than the page's last row and the page is full; (P3) at most n rows. The next cursor is the last
+// (smallest) sort id of a full page.
+func pagingLemmas(prog *Program) []*lemmaQuery {
+	prelude := `
+(declare-fun matches (Int) Bool)
+(declare-fun in1 (Int) Bool)
+(declare-fun in2 (Int) Bool)
+(declare-const c1 Int)
+(declare-const last1 Int)
+(declare-const full1 Bool)
+(declare-const last2 Int)
+(declare-const full2 Bool)
+; page 1 for cursor c1
+(assert (forall ((s Int)) (=> (in1 s) (and (matches s) (< s c1)))))
+(assert (forall ((s Int)) (=> (and (matches s) (< s c1) (not (in1 s))) (and full1 (< s last1)))))
+(assert (=> full1 (and (in1 last1) (forall ((s Int)) (=> (in1 s) (>= s last1))))))
+; page 2 for the cursor taken from page 1 (only requested when page 1 was full)
+(assert full1)
+(assert (forall ((s Int)) (=> (in2 s) (and (matches s) (< s last1)))))
+(assert (forall ((s Int)) (=> (and (matches s) (< s last1) (not (in2 s))) (and full2 (< s last2)))))
+(assert (=> full2 (and (in2 last2) (forall ((s Int)) (=> (in2 s) (>= s last2))))))
+`
+	mk := func(name, goal string) *lemmaQuery {
+		return &lemmaQuery{name: name, where: "spec: paging", q: &Query{Name: "paging." + strings.ReplaceAll(name, " ", "_"), Prelude: prelude, Goal: Term{goal, SBool},
+			Comment: "paging lemma: " + name}}
+	}
+	return []*lemmaQuery{
+		mk("consecutive pages are disjoint", "(forall ((s Int)) (not (and (in1 s) (in2 s))))"),
+		mk("every row of the second page is older than every row of the first", "(forall ((s Int) (t Int)) (=> (and (in1 s) (in2 t)) (< t s)))"),
+		mk("no matching row below the first cursor is skipped by two pages", "(forall ((s Int)) (=> (and (matches s) (< s c1)) (or (in1 s) (in2 s) (and full2 (< s last2)))))"),
+		mk("pages hold matching rows only", "(forall ((s Int)) (=> (or (in1 s) (in2 s)) (matches s)))"),
+	}
 }
